@@ -95,7 +95,9 @@ def eval_monad_first(a):
                          *1  -->  1
 
     """
-    return a if is_empty(a) or not is_iterable(a) else a[0]
+    if is_empty(a) or not is_iterable(a):
+        return a
+    return KGChar(a[0]) if isinstance(a, str) else a[0]
 
 
 def eval_monad_floor(a, backend):
